@@ -787,6 +787,9 @@ func gridnFunc(gridnFn func(float64, string)) builtinFunc {
 	return func(_ *scope, args []value) (value, error) {
 		unit := args[0].(*numVal)
 		color := args[1].(*stringVal)
+		if !(unit.V > 0) {
+			return nil, fmt.Errorf(`%w: "gridn" unit must be greater than 0, found %s`, ErrBadArguments, unit)
+		}
 		gridnFn(unit.V, color.V)
 		return nil, nil
 	}
